@@ -32,7 +32,7 @@ def busyOver : Nat → KState → List String → List String
 
 /-- what the model's final state says about why the run did not come to rest -/
 def diagnose (c : Kan.Case) (k : KState) (down : List String) : String :=
-  match runHist false (isLoop c.hist) false c.hist (c.run0 k) with
+  match runHist false (isLoop c.hist) false c.hist { c.run0 k with sched := c.sched1 } with
   | .error e => s!"model: crash {crashName e}"
   | .ok r =>
     -- a recorded finding is a defect of the code as modelled: the model must end in the same
